@@ -303,7 +303,7 @@ fn setup_def(s: &mut DStream, plan: &DefPlan, ar: &Arenas, hold: &mut Vec<GzHold
 }
 
 fn tracker_errors(tr: &Tracker, o: &mut Outcome, what: &str) {
-    if let Some(e) = tr.errors.first() {
+    if let Some(e) = tr.first_error() {
         o.fail(format!("{}/allocator-misuse", what), format!("{}: {}", what, e));
     }
 }
@@ -338,7 +338,7 @@ fn deflate_copy_case(t: &mut Tape, ctx: &Ctx, o: &mut Outcome) {
         let (ncalls, moved, pending) = lockstep_deflate(&mut streams, ar, &plan, &ops, true, end_early, Some(copy_at), &tr, o, "deflateCopy", seed, &mut (0, 0));
         end_all(&mut streams);
         tracker_errors(&tr, o, "deflateCopy");
-        if o.fail.is_none() && !tr.live.is_empty() {
+        if o.fail.is_none() && tr.live_count() > 0 {
             o.class("allocation still live after End (see C18)");
         }
         guard::unregister(&tr);
